@@ -1,8 +1,11 @@
 #!/bin/sh
-# Prebuild of the C13 Lean project (run once after a fresh restore, offline): builds the hand model, the specification,
-# the lemmas and the property theorems (pays the cold Mathlib import once; leaves lean-c13/.lake populated) and the
-# compiled model driver `c13-model`.  Nothing of /repo is compiled here: ./check C13 rebuilds the C side from the
-# working tree in a scratch directory on every run.
+# Prebuild of the C13 Lean project (run once after a fresh restore, offline): translates src/crystal_diffraction.c of the
+# working tree (${VERIF_REPO:-/repo}) into XrlC13/Gen/Crystal.lean, builds the hand model, the specification, the lemmas, the
+# property theorems (Props/C13.lean), the refinement theorems generated code = hand model (Props/C13g.lean) — pays the cold
+# Mathlib import once, leaves lean-c13/.lake populated — and the compiled model driver `c13-model`.  Nothing of /repo is
+# compiled here: ./check C13 rebuilds the C side from the working tree in a scratch directory on every run (and regenerates
+# XrlC13/Gen/Crystal.lean from the same tree).
 set -e
 cd "$(dirname "$0")"
-lake build XrlC13 XrlC13.Props.C13 c13-model
+python3 ../tools/c13_c2lean.py "${VERIF_REPO:-/repo}" XrlC13/Gen || [ $? -eq 3 ]
+lake build XrlC13 XrlC13.Props.C13 XrlC13.Props.C13g c13-model
